@@ -143,6 +143,14 @@ def packed_value_checked(ctx, fx, fid, callee_rx, value_name="value", rule="R-WI
     configured width is an error, not a silently shortened entry. Siblings must agree: the delta of a block is checked,
     so its base has to be as well."""
     rx = re.compile(callee_rx)
+    if not fx.has(fid):
+        # `fid` names a struct: every method of it in its file is searched (the packing loop may have been split)
+        n = 0
+        for f2 in fx.fn_ids():
+            rec = fx.raw(f2)
+            if "::tests::" not in f2 and (rec["self_ty"] or "").split("<")[0] == fid and not rx.search(f2):
+                n += packed_value_checked(ctx, fx, f2, callee_rx, value_name, rule)
+        return n
     fn = Fn(fx.raw(fid))
     eb = err_blocks(fn)
     n = 0
